@@ -33,3 +33,32 @@ def classify(e, w, h):
     rule(n == "svt_aom_mse16x16", "variance")
     rule(n == "svt_aom_highbd_8_mse16x16", "mse_void_hbd8")
     return R[0] if R else None
+
+
+# what each driver enumerates (copied into the evidence)
+DOC = {
+    'intra_lbd':
+        'block size from the name x dst stride {w,w+1,w+16,2w} x edge patterns over [left reversed, top-left, above]: 1-D pattern alphabet + 6 group patterns (above/left extremes, only top-left, only last sample); complete {0,255}^(w+h+1) cube when w+h+1 <= 16 (4x4, 4x8, 8x4)',
+    'intra_hbd':
+        'as intra_lbd for bit depth 8, 10, 12 (values 0..2^bd-1), cube also for 2x2',
+    'sad':
+        'block size from the name x src stride x ref stride (4x4) x ref byte offset {0,1} x all pattern pairs (src, ref) over 0..255',
+    'sad4d':
+        'block size x src stride x ref stride x all pattern pairs; the 4 references are the views +0, +1, +stride, +2*stride+3 of one (w+8)x(h+8) area',
+    'variance':
+        'as sad, return value and *sse compared (also svt_aom_mse16x16)',
+    'variance_hbd':
+        'as variance on CONVERT_TO_BYTEPTR(uint16) buffers with samples of the bit depth in the kernel name',
+    'obmc_sad':
+        'block size x pre stride x all pattern pairs of two of (pre 0..255, wsrc 0..255*4096, mask 0..4096) with the third cycling through {min,max,texture}',
+    'obmc_variance':
+        'as obmc_sad, return value and *sse',
+    'obmc_subpel_variance':
+        'as obmc_variance x every (xoffset, yoffset) in 0..7 x 0..7 (quick: pattern pairs thinned 1/8 except offsets (0,0) and (7,7))',
+    'fwd_txfm':
+        "size from the name (full, N2, N4 variants) x bit depth {8,10,12} x every transform type the syntax allows for the size (library's get_ext_tx_set_type/av1_ext_tx_used, inter or intra) x input stride {w,w+1,w+16,2w} x residual pattern alphabet over +-(2^bd-1); whole w*h output + guards compared",
+    'inv_txfm':
+        'size x bit depth {8,10,12} x valid transform types x coefficients = C forward transform of each residual pattern (requantised with step 1 and 64, 64-point dimensions zeroed/repacked to 32) x prediction pattern {min,max,mid,texture,checker} x stride x {in-place with the true eob, separate read/write buffers with eob = max} (the two forms the callers use)',
+    'inv_txfm_lbd':
+        'svt_av1_inv_txfm_add: all 19 transform sizes through TxfmParam, 8-bit pixels, otherwise as inv_txfm',
+}
